@@ -299,6 +299,7 @@ def run(ctx, consts, jobs):
     def samples(lines):
         return [l for l in lines if l.startswith("ret=") and "data=" in l]
 
+    control_ok = {}
     for n, c in enumerate(cases):
         j = c["j"]
         f, ch = j["f"], j["ch"]
@@ -324,6 +325,16 @@ def run(ctx, consts, jobs):
                        "# C14 the same file bytes must give the same SF_INFO, samples, strings and errors on every route: %s (a valid file the library's own writer never produces: %s), route vio\n"
                        "# line %d differs from the path route (sf_open):\n#   path: %s\n#   vio : %s\n--- script\n%s"
                        % (j["name"], c["tag"], k + 2, (ref[k] if k < len(ref) else "(missing)")[:300], (vio[k] if k < len(vio) else "(missing)")[:300], sd["f|%d|vio" % n][:200000]))
+        if c.get("bigskip"):
+            if c.get("control"):
+                control_ok[c["group"]] = ok
+            elif not ok and control_ok.get(c["group"]):
+                # the same transformation, only longer; the control validated it.  Whatever the reference route makes of this member (the
+                # parsers refuse a header that fills the cache to the last byte -- on every route alike, not a matter of routes), the OTHER
+                # routes must make the same of it: fall through to the comparisons
+                stats["bigskip_members_not_read_by_the_reference_route"] += 1
+                c["ref_refuses"] = bool(ref) and re.match(r"open=NULL err=[1-9]", ref[0]) is not None
+                ok = True
         if not ok:
             stats["not_accepted_as_equivalent_by_the_reference_route"] += 1
             ctx.notes.setdefault("foreign_not_accepted", []).append("%s: %s" % (c["name"], (ref[0] if ref else "(nothing)")[:90]))
@@ -349,6 +360,11 @@ def run(ctx, consts, jobs):
                 b0 = [re.sub(r" seekable=\d", "", x) for x in rd(key, ch)]
                 ctx.count(1, tag="foreign-pipe")
                 stats["pipe_comparisons"] += 1
+                if c.get("ref_refuses") and b0 and re.match(r"open=NULL err=[1-9]", b0[0]):
+                    # both refuse at open (the pipe clause is about SAMPLES: neither route delivers any; the error number of a refusal on a
+                    # one-pass stream is the parser's own and differs by design, as for the UNSTREAMABLE layouts)
+                    stats["bigskip_refused_on_both"] += 1
+                    continue
                 if c["tag"] in UNSTREAMABLE and b0 and re.match(r"open=NULL err=[1-9]", b0[0]):
                     # the chunk that says how to decode the audio lies BEHIND the audio: a one-pass reader cannot deliver any sample;
                     # a clean refusal at open delivers no wrong one ("delivers the same samples" is not contradicted)
